@@ -13,6 +13,8 @@ import (
 	"sync"
 	"sync/atomic"
 
+	"golang.org/x/text/unicode/norm"
+
 	"github.com/wollac/iota-crypto-demo/pkg/bip39"
 
 	"verif/harness/fw"
@@ -24,7 +26,7 @@ func init() {
 		ID:       "C09",
 		Builds:   []string{"default", "386"}, // the 386 build runs 1/8 of the random classes on a 32-bit target
 		Scale386: 8,
-		Rule: "seed: valid mnemonics of all 13 lengths in both lists (given directly or parsed from a string joined by various white space) x passphrases from the corpus produced by tools/nfkd_corpus.py (python unicodedata NFKD; empty, ASCII, composed/decomposed accents, runs of combining marks, ligatures, full-width forms, Hangul, kana with dakuten, 1..200 code points; every character assigned since Unicode 3.2 that changes under NFKD appears): the 64 bytes must equal own PBKDF2-HMAC-SHA512(2048, words joined by single spaces, \"mnemonic\"+python-NFKD(passphrase)); invalid mnemonics must give an error and no seed; seed_sequence: a valid sentence, then the same printed form split into other elements, then the same sentence after SetWordList(other list) (both invalid), then back; concurrent: 8 goroutines decode sentences of all 13 lengths at once. parse: words in variant forms (as is, NFC, NFD, NFKC) joined by random runs of Unicode white space must parse to the python-NFKD words; parse(print(parse(s))) == parse(s) and the text (un)marshalers agree, on arbitrary strings; UnmarshalText is also called on buffers that the caller overwrites afterwards. " +
+		Rule: "seed: valid mnemonics of all 13 lengths in both lists (given directly or parsed from a string joined by various white space) x passphrases from the corpus produced by tools/nfkd_corpus.py (python unicodedata NFKD; empty, ASCII, composed/decomposed accents, runs of combining marks, ligatures, full-width forms, Hangul, kana with dakuten, 1..200 code points; every character assigned since Unicode 3.2 that changes under NFKD appears): the 64 bytes must equal own PBKDF2-HMAC-SHA512(2048, words joined by single spaces, \"mnemonic\"+python-NFKD(passphrase)); invalid mnemonics must give an error and no seed; seed_variant: a directly built Mnemonic holding a valid sentence's words NFC-composed or in fullwidth letters (inputs built with x/text, expectation from the embedded official list) must either be refused or give the seed of the normalized sentence; seed_sequence: a valid sentence, then the same printed form split into other elements, then the same sentence after SetWordList(other list) (both invalid), then back; concurrent: 8 goroutines decode sentences of all 13 lengths at once. parse: words in variant forms (as is, NFC, NFD, NFKC) joined by random runs of Unicode white space must parse to the python-NFKD words; parse(print(parse(s))) == parse(s) and the text (un)marshalers agree, on arbitrary strings; UnmarshalText is also called on buffers that the caller overwrites afterwards. " +
 			"Non-trivial: seed cases whose passphrase changes under NFKD; parser inputs containing a non-ASCII byte.",
 		Assumptions: []string{"python3 unicodedata NFKD (independent of golang.org/x/text)", "HMAC-SHA512 of the Go standard library", "own PBKDF2 loop and bit-level model in harness/oracle/bip39m (self-tested on Trezor vectors in both languages)", "characters limited to those assigned since Unicode 3.2 outside the CJK compatibility ideograph blocks (normalization stability)"},
 		SelfTest:    bip39m.SelfTest,
@@ -35,6 +37,8 @@ func init() {
 			switch class {
 			case "seed":
 				return map[string]interface{}{"list": lang(p[0][0]), "entropy": fw.Hex(p[1]), "separator": fmt.Sprintf("%q", seps[p[2][0]]), "passphrase": fmt.Sprintf("%+q", string(p[3])), "nfkd_by_python": fmt.Sprintf("%+q", string(p[4]))}
+			case "seed_variant":
+				return map[string]interface{}{"list": lang(p[0][0]), "entropy": fw.Hex(p[1]), "form": []string{"all words NFC", "every second word NFC", "all words fullwidth", "last word fullwidth"}[p[2][0]&3], "passphrase": fmt.Sprintf("%+q", string(p[3]))}
 			case "seed_invalid":
 				return map[string]interface{}{"list": lang(p[0][0]), "words": strings.Split(string(p[1]), "\x00"), "passphrase": fmt.Sprintf("%+q", string(p[2]))}
 			case "seed_sequence":
@@ -46,7 +50,7 @@ func init() {
 			}
 			return map[string]interface{}{"input": fmt.Sprintf("%+q", string(p[0]))}
 		},
-		Required: []string{"seed sequences with list switches", "concurrent executions", "seed ok", "seed ok, passphrase changed by NFKD", "invalid mnemonic refused", "parse ok", "parse idempotent"},
+		Required: []string{"seed sequences with list switches", "concurrent executions", "seed ok", "seed ok, passphrase changed by NFKD", "invalid mnemonic refused", "sentence in another Unicode form: refused", "parse ok", "parse idempotent"},
 	})
 }
 
@@ -129,6 +133,48 @@ func judge(class string, key []byte, o *fw.Obs) {
 		judgeSeedSequence(p, o)
 	case "concurrent":
 		judgeConcurrent(p, o)
+	case "seed_variant":
+		// A Mnemonic built directly (it is an exported []string) from the words of a valid sentence in
+		// another Unicode form: NFC-composed (the form Japanese text is normally stored in) or fullwidth
+		// letters. The sentence is not made of the list's NFKD words: it is either refused (error, no seed),
+		// or the seed is the one of the normalized sentence. A seed over the raw bytes is a different wallet.
+		l := lang(p[0][0])
+		if !setLang(o, l) {
+			return
+		}
+		ent, form, pass, nfkd := p[1], p[2][0], string(p[3]), p[4]
+		words := bip39m.Lang(l).Encode(ent)
+		want := bip39m.Seed(words, nfkd)
+		vw := make([]string, len(words))
+		differs := false
+		for i, w := range words {
+			vw[i] = w
+			switch {
+			case form == 0:
+				vw[i] = norm.NFC.String(w)
+			case form == 1 && i%2 == 0:
+				vw[i] = norm.NFC.String(w)
+			case form == 2:
+				vw[i] = fullwidth(w)
+			case form == 3 && i == len(words)-1:
+				vw[i] = fullwidth(w)
+			}
+			differs = differs || vw[i] != w
+		}
+		o.Nontrivial()
+		var got []byte
+		var err error
+		if !o.Try("MnemonicToSeed", func() { got, err = bip39.MnemonicToSeed(bip39.Mnemonic(vw), pass) }) {
+			return
+		}
+		switch {
+		case err != nil && got == nil && differs:
+			o.Count("sentence in another Unicode form: refused")
+		case err == nil && bytes.Equal(got, want):
+			o.Count("sentence in another Unicode form: seed of the normalized sentence")
+		default:
+			o.Fail("seed", "MnemonicToSeed of a directly built Mnemonic whose words are the valid sentence %q in another Unicode form (%+q) returned seed=%x err=%v: expected either an error and no seed, or the seed of the normalized sentence %x", words, vw, got, err, want)
+		}
 	case "seed_invalid":
 		l := lang(p[0][0])
 		if !setLang(o, l) {
@@ -357,6 +403,18 @@ func judgeConcurrent(p [][]byte, o *fw.Obs) {
 	o.Count("concurrent executions")
 }
 
+// fullwidth maps ASCII letters to their fullwidth forms (NFKD maps them back).
+func fullwidth(w string) string {
+	var sb strings.Builder
+	for _, r := range w {
+		if r > 0x20 && r < 0x7f {
+			r += 0xFF00 - 0x20
+		}
+		sb.WriteRune(r)
+	}
+	return sb.String()
+}
+
 func isASCII(s string) bool {
 	for i := 0; i < len(s); i++ {
 		if s[i] >= 0x80 {
@@ -438,6 +496,9 @@ func gen(g *fw.Gen) {
 					w = nil
 				}
 				g.Emit("seed_invalid", fw.Pack([]byte{l}, []byte(strings.Join(w, "\x00")), []byte(string(ln.S))))
+			}
+			if j%8 == 2+int(l) {
+				g.Emit("seed_variant", fw.Pack([]byte{l}, g.Bytes(16+4*g.Rng.Intn(13)), []byte{byte(g.Rng.Intn(4))}, []byte(string(ln.S)), []byte(string(ln.N))))
 			}
 		}
 	}
